@@ -514,6 +514,22 @@ def rule_f(ctx):
     sup_init = [c for c in A.calls_in(fi.node) if (A.call_name(c) or '') in ('super().__init__', 'base.Symbolic.__init__')]
     for c in sup_init:
       sk = A.kwarg(c, 'sealed')
+      if sk is None:
+        # flags collected in a dict first: base.__init__(self, **flags)
+        for kw in c.keywords:
+          if kw.arg is None and isinstance(kw.value, ast.Name):
+            for _, dv in _D.defs_of(fi.node, kw.value.id):
+              if isinstance(dv, ast.Call) and A.call_name(dv) == 'dict' and A.kwarg(dv, 'sealed') is not None:
+                sk = A.kwarg(dv, 'sealed')
+              elif isinstance(dv, ast.Dict):
+                for k_, v_ in zip(dv.keys, dv.values):
+                  if k_ is not None and A.const_str(k_) == 'sealed':
+                    sk = v_
+            # flags['sealed'] = x
+            for n_ in ast.walk(fi.node):
+              if isinstance(n_, ast.Assign) and isinstance(n_.targets[0], ast.Subscript) \
+                  and A.unparse(n_.targets[0].value) == kw.value.id and A.const_str(n_.targets[0].slice) == 'sealed':
+                sk = n_.value
       if has_early and sk is not None and not (isinstance(sk, ast.Constant) and sk.value is False):
         problems.append(f'the base constructor already sets the flag (sealed={A.unparse(sk)}): the final '
                         f'self.seal(sealed) returns early and no child is sealed')
